@@ -10,7 +10,8 @@ import common as C
 import gens
 
 WORDS = ['a', 'b', 'c', 'd', 'e', 'f', 'g', 'h', 'i', 'j', 'k', 'l', 'm', 'n', 'o', 'p',
-         'aa', 'ab', 'ba', 'bb', 'zz', 'q1', 'x9', 'été', '中', 'Z', 'A0']
+         'aa', 'ab', 'ba', 'bb', 'zz', 'q1', 'x9', 'été', '中', 'Z', 'A0',
+         'B', 'Aa', 'ZZ']          # spellings that differ from another word only in case
 
 
 def make_tokenizer(rng, kind=None, return_set=None):
